@@ -839,6 +839,10 @@ SyntaxVisitor::Action TypeChecker::visitExtGNU_Attribute(const ExtGNU_AttributeS
 SyntaxVisitor::Action TypeChecker::visitExpressionInitializer(
         const ExpressionInitializerSyntax* node)
 {
+    // There's no type to initialize in an invalid `typedef T = 0;'.
+    if (!ty_)
+        return Action::Skip;
+
     auto leftTy = unqualifiedAndResolved(ty_);
     VISIT(node->expression());
     auto rightTy = unqualifiedAndResolved(ty_);
